@@ -185,7 +185,7 @@ func TestC11Rapid(t *testing.T) {
 		default:
 			e = &xast.Bin{Op: "|", L: operand(), R: operand()}
 		}
-		l := &harness.Live{Property: "C11", Check: "C11/union", Doc: doc, Ctx: ctx, AST: e, Expr: xast.Render(e), Flavour: flavourOf(rt)}
+		l := &harness.Live{Property: "C11", Check: "C11/union", Doc: doc, Ctx: ctx, AST: e, Expr: renderDrawn(rt, e), Flavour: flavourOf(rt)}
 		if wide {
 			// unions over the whole wide level, so that nodes with colliding index paths meet in one de-duplication table
 			e = &xast.Bin{Op: "|", L: &xast.Path{Abs: true, Steps: []interface{}{xast.DSlash{}, &xast.Step{Axis: "child", Test: xast.NodeTest{Kind: rapid.SampledFrom([]string{"wild", "node"}).Draw(rt, "wtest")}, Abbr: true}}}, R: operand()}
